@@ -1,5 +1,5 @@
 (* C15 — NumPy reductions and linear algebra on fixed-point arrays are exact.
-   Model: Reduce.fxp_sum / fxp_cumsum / fxp_prod / fxp_dot (growth rule, int64 accumulation,
+   Model: Reduce.fxp_sum / fxp_cumsum / fxp_prod / fxp_dot (growth rule, int64 accumulation or Python integers by result width,
    Fxp(val, raw=True)).  max, min, sort, clip, transpose, diagonal keep the operand's format and
    only select / rearrange codes (checked by the correspondence run). *)
 From Coq Require Import ZArith List Bool Lia.
@@ -7,12 +7,13 @@ From FxpVerif Require Import Spec SpecArith NP Store ProofsCore Arith Reduce Pro
 Import ListNotations.
 Open Scope Z_scope.
 
-(* sum (all elements or one slice along an axis; x.size drives the growth): exact, no flag, for
+(* sum (all elements or one slice along an axis; x.size drives the growth): exact, no flag, for EVERY word length (int64 / uint64
+   accumulation below 64 result bits, Python integers from there on - functions._accum_cast) and
    ANY number of elements *)
 Theorem C15_sum_exact : forall f total l r o, 1 <= nw f -> 1 <= total -> Z.of_nat (length l) <= total ->
-  clog2 total + nw f <= 62 -> Forall (in_range f) l ->
+  Forall (in_range f) l ->
   exists w, fxp_sum f total l r o = Ok (sum_fmt f total, w) /\ w_codes w = [zsum l] /\ w_ovf w = false /\ w_unf w = false.
-Proof. exact fxp_sum_exact. Qed.
+Proof. exact fxp_sum_exact_any. Qed.
 Print Assumptions C15_sum_exact.
 (* never overflows, even when every element is at an extreme: bound lemmas for any length *)
 Theorem C15_sum_no_overflow : forall f total l, 1 <= nw f -> Z.of_nat (length l) <= total -> 1 <= total ->
@@ -32,9 +33,9 @@ Print Assumptions C15_accumulation_exact.
 
 (* cumsum: every prefix sum, exact, no flag (same growth as sum) *)
 Theorem C15_cumsum_exact : forall f total l r o, 1 <= nw f -> 1 <= total -> Z.of_nat (length l) <= total ->
-  clog2 total + nw f <= 62 -> Forall (in_range f) l ->
+  Forall (in_range f) l ->
   exists w, fxp_cumsum f total l r o = Ok (sum_fmt f total, w) /\ w_codes w = prefix_sums 0 l /\ w_ovf w = false /\ w_unf w = false.
-Proof. exact fxp_cumsum_exact. Qed.
+Proof. exact fxp_cumsum_exact_any. Qed.
 Print Assumptions C15_cumsum_exact.
 
 (* prod: the exact product in a word `count` times as wide; it never overflows that word *)
@@ -42,10 +43,10 @@ Theorem C15_prod_no_overflow : forall f l, 1 <= nw f -> (1 <= length l)%nat -> F
   in_range (prod_fmt f (Z.of_nat (length l))) (zprod l).
 Proof. exact prod_in_range. Qed.
 Print Assumptions C15_prod_no_overflow.
-Theorem C15_prod_exact : forall f l r o, 1 <= nw f -> (1 <= length l)%nat -> Z.of_nat (length l) * nw f <= 62 -> Forall (in_range f) l ->
+Theorem C15_prod_exact : forall f l r o, 1 <= nw f -> (1 <= length l)%nat -> Forall (in_range f) l ->
   exists w, fxp_prod f (Z.of_nat (length l)) l r o = Ok (prod_fmt f (Z.of_nat (length l)), w) /\
     w_codes w = [zprod l] /\ w_ovf w = false /\ w_unf w = false.
-Proof. exact fxp_prod_exact. Qed.
+Proof. exact fxp_prod_exact_any. Qed.
 Print Assumptions C15_prod_exact.
 
 (* cumprod: every running product, expressed with the n * n_frac fraction bits of the result, exact and inside the optimal
@@ -68,20 +69,20 @@ Proof. vm_compute. reflexivity. Qed.
 
 (* dot (one entry of a vector or matrix product): the exact sum of the products *)
 Theorem C15_dot_exact : forall fx fy xs ys r o, 1 <= nw fx -> 1 <= nw fy -> length xs = length ys -> (1 <= length xs)%nat ->
-  clog2 (Z.of_nat (length xs)) + nw fx + nw fy <= 62 -> Forall (in_range fx) xs -> Forall (in_range fy) ys ->
+  Forall (in_range fx) xs -> Forall (in_range fy) ys ->
   exists w, fxp_dot fx fy xs ys r o = Ok (dot_fmt fx fy (Z.of_nat (length xs)), w) /\
     w_codes w = [zsum (map (fun p => fst p * snd p) (combine xs ys))] /\ w_ovf w = false /\ w_unf w = false.
-Proof. exact fxp_dot_exact. Qed.
+Proof. exact fxp_dot_exact_any. Qed.
 Print Assumptions C15_dot_exact.
 
 (* trace: the sum of the diagonal, the word growing by ceil(log2(number of diagonal elements)):
    functions.trace is _trace_raw = np.trace(x.val) with that growth, i.e. the model fxp_sum on
    the diagonal with total := its length *)
 Theorem C15_trace_exact : forall f d r o, 1 <= nw f -> (1 <= length d)%nat ->
-  clog2 (Z.of_nat (length d)) + nw f <= 62 -> Forall (in_range f) d ->
+  Forall (in_range f) d ->
   exists w, fxp_sum f (Z.of_nat (length d)) d r o = Ok (sum_fmt f (Z.of_nat (length d)), w) /\
     w_codes w = [zsum d] /\ w_ovf w = false /\ w_unf w = false.
-Proof. intros f d r o Hw Hn H62 Hr. apply fxp_sum_exact; try assumption; lia. Qed.
+Proof. intros f d r o Hw Hn Hr. apply fxp_sum_exact_any; try assumption; lia. Qed.
 Print Assumptions C15_trace_exact.
 
 (* PARTIAL: cumprod (running products rescaled to the common fraction length) is not stated
